@@ -837,38 +837,38 @@ def run_sw_selfbuilt(case):
 SUBCHECKS = [
     Subcheck('pe_dry_weakform', functools.partial(run_pe_weakform, family='dry'),
              strategy=lambda tier: _pe_o2_case(tier, 'dry'),
-             examples={'quick': 10, 'thorough': 60}, shards={'quick': 1, 'thorough': 6},
+             examples={'quick': 20, 'thorough': 300}, shards={'quick': 1, 'thorough': 6},
              wall={'quick': 400.0, 'thorough': 1500.0}, weight=3,
              rule='non-trivial = >= 2 levels and a state with non-zero vorticity, divergence, T\' and grad(lnps)',
              doc='O2: PrimitiveEquations / PrimitiveEquationsWithTime == weak-form reference; get_geopotential'),
     Subcheck('pe_moist_weakform', functools.partial(run_pe_weakform, family='moist'),
              strategy=lambda tier: _pe_o2_case(tier, 'moist'),
-             examples={'quick': 10, 'thorough': 60}, shards={'quick': 1, 'thorough': 6},
+             examples={'quick': 20, 'thorough': 300}, shards={'quick': 1, 'thorough': 6},
              wall={'quick': 400.0, 'thorough': 1500.0}, weight=3,
              rule='non-trivial = >= 2 levels and a state with non-zero vorticity, divergence, T\', grad(lnps), humidity',
              doc='O2: MoistPrimitiveEquations (+ cloud class with zero cloud content) == weak-form reference'),
     Subcheck('sw_weakform', run_sw_weakform, strategy=lambda tier: _sw_o2_case(tier),
-             examples={'quick': 12, 'thorough': 80}, shards={'quick': 1, 'thorough': 4},
+             examples={'quick': 24, 'thorough': 400}, shards={'quick': 1, 'thorough': 4},
              wall={'quick': 400.0, 'thorough': 1500.0}, weight=2,
              rule='non-trivial = a state with non-zero vorticity, divergence and potential',
              doc='O2: ShallowWaterEquations == weak-form reference of the layered equations'),
     Subcheck('pe_rest_over_orography', run_pe_rest, strategy=lambda tier: _pe_rest_case(tier),
-             examples={'quick': 8, 'thorough': 50}, shards={'quick': 1, 'thorough': 4},
+             examples={'quick': 16, 'thorough': 250}, shards={'quick': 1, 'thorough': 4},
              wall={'quick': 400.0, 'thorough': 1500.0}, weight=2,
              rule='non-trivial = non-flat orography and T0 != T_ref on some level',
              doc='O1 (i): resting isothermal hydrostatic atmosphere over band-limited orography is steady'),
     Subcheck('pe_solid_body_rotation', run_pe_solid, strategy=lambda tier: _pe_solid_case(tier),
-             examples={'quick': 8, 'thorough': 50}, shards={'quick': 1, 'thorough': 4},
+             examples={'quick': 16, 'thorough': 250}, shards={'quick': 1, 'thorough': 4},
              wall={'quick': 400.0, 'thorough': 1500.0}, weight=2,
              rule='non-trivial = per-layer temperatures differ (or a single layer)',
              doc='O1 (ii): solid-body rotation with balancing orography is steady (dry / moist / cloud)'),
     Subcheck('sw_repo_steady_states', run_sw_repo_states, strategy=lambda tier: _sw_jet_case(tier, True),
-             examples={'quick': 8, 'thorough': 50}, shards={'quick': 1, 'thorough': 2},
+             examples={'quick': 16, 'thorough': 250}, shards={'quick': 1, 'thorough': 2},
              wall={'quick': 400.0, 'thorough': 1500.0}, weight=1,
              rule='non-trivial = a non-zero zonal wind profile',
              doc='O1 (iii): shallow_water_states.one_layer / multi_layer have the requested wind and zero tendency'),
     Subcheck('sw_selfbuilt_jets', run_sw_selfbuilt, strategy=lambda tier: _sw_jet_case(tier, False),
-             examples={'quick': 8, 'thorough': 50}, shards={'quick': 1, 'thorough': 2},
+             examples={'quick': 16, 'thorough': 250}, shards={'quick': 1, 'thorough': 2},
              wall={'quick': 400.0, 'thorough': 1500.0}, weight=1,
              rule='non-trivial = a non-zero zonal wind profile',
              doc='O1 (iii): closed-form balanced jets (any rotation rate, radius, densities, orography) are steady'),
